@@ -130,17 +130,22 @@ def sources(src: int, e0: int, e1: int, e2: int, e3: int, v0: int, v1: int, v2: 
     return hx.end(True)
 
 
+_NAMES = ["rain", "rainfall", "soil"]        # (one name is contained in another)
+# 'pos' is the name under which the world itself keeps the cells' coordinates: as a cell-component name it is hostile
+_HOSTILE = ["rain", "pos", "soil"]
+
+
 def history(o0: int, o1: int, o2: int, nm0: int, nm1: int, nm2: int) -> bool:
     """
     pre: 0 <= o0 < 4 and 0 <= o1 < 4 and 0 <= o2 < 4
-    pre: 0 <= nm0 < 3 and 0 <= nm1 < 3 and 0 <= nm2 < 3
+    pre: 0 <= nm0 < len(hx.P.get('names', _NAMES)) and 0 <= nm1 < len(hx.P.get('names', _NAMES)) and 0 <= nm2 < len(hx.P.get('names', _NAMES))
     post: _
     """
     # several named components on two worlds of the same shape: adding/removing one leaves every other component, the
     # set of cells and the other world unchanged; removing an unknown component is rejected
     hx.begin()
     kind, k = hx.P['world'], hx.P['k']
-    names = ["rain", "rainfall", "soil"]        # (one name is contained in another)
+    names = hx.P.get('names', _NAMES)
     with _Patched():
         m = Model(logger=NULL_LOGGER)
         envs = [_mk(kind, m)[0], _mk(kind, m)[0]]
@@ -168,9 +173,17 @@ def history(o0: int, o1: int, o2: int, nm0: int, nm1: int, nm2: int) -> bool:
                     hx.reach('add_failed')
             elif op in (0, 2):          # add (or overwrite) on world 0 / world 1
                 data = [(step + 1) * 100 + wi * 10 + i for i in range(n)]
-                env.add_cell_component(name, list(data))
-                ref[wi][name] = data
-                hx.reach('added')
+                if name == 'pos':
+                    # the set of cells must survive whatever happens to this request: refused, or stored elsewhere
+                    try:
+                        env.add_cell_component(name, list(data))
+                    except ValueError:
+                        pass
+                    hx.reach('hostile_add')
+                else:
+                    env.add_cell_component(name, list(data))
+                    ref[wi][name] = data
+                    hx.reach('added')
             else:                     # remove on world 0
                 if name in ref[0]:
                     env.remove_cell_component(name)
@@ -184,9 +197,14 @@ def history(o0: int, o1: int, o2: int, nm0: int, nm1: int, nm2: int) -> bool:
                     except ComponentNotFoundError:
                         pass
             for j in (0, 1):
+                if 'pos' not in envs[j].cells:
+                    return hx.end(hx.fail("set of cells destroyed (the world's coordinate column is gone)", world=j, step=step,
+                                          after="%s %r" % (("add", "remove", "add", "failing add")[op], name)))
                 if list(envs[j].cells['pos']) != cells:
                     return hx.end(hx.fail("set of cells changed", world=j, step=step))
                 for nm in names:
+                    if nm == 'pos':
+                        continue
                     if (nm in envs[j].cells) != (nm in ref[j]):
                         return hx.end(hx.fail("component presence", world=j, name=nm, step=step,
                                               present=nm in envs[j].cells, expected=nm in ref[j]))
@@ -286,6 +304,9 @@ def obligations(tier):
         X("history", history, parts=[{"world": w, "k": k} for w in (("line", "grid") if tier == "quick" else worlds)
                                      for k in ((2,) if tier == "quick" else (2, 3))],
           labels=("added", "removed", "remove_rejected", "add_failed"), timeout=1200, encoded=enc),
+        X("history_hostile_names", history, parts=[{"world": w, "k": 2, "names": _HOSTILE} for w in ("line", "grid")],
+          labels=("hostile_add", "remove_rejected"), timeout=1200, encoded=enc,
+          bounds={"names": "'pos' (the name of the world's own coordinate column) among ordinary names", "history": "2 operations"}),
         X("history_targeted", history, parts=[{"world": "line", "k": 3, "ops": [0, 0, 1]}, {"world": "grid", "k": 3, "ops": [0, 2, 1]}],
           labels=("removed",), timeout=600, encoded=enc, bounds={"history": "add, add, remove with solver-chosen names (one name contains another)"}),
         X("constant_generator", constant_generator, labels=("called",), timeout=120, encoded=(Env.ConstantGenerator.__call__,)),
